@@ -180,6 +180,10 @@ TypeOf ==
        as a one-field list *)
     encp |-> Struct(<<U(64)>>), pencp |-> Ptr(Struct(<<U(64)>>)), encv |-> Struct(<<U(64)>>),
     Senc |-> Struct(<<Struct(<<U(64)>>), Ptr(Struct(<<U(64)>>)), Struct(<<U(64)>>)>>),
+    (* a wide struct: one field of each struct type of the catalogue (many distinct field types: the
+       generation of its type information takes long - first-use family) *)
+    Wide |-> Struct(<<Ref("S1"), Ref("SnilA"), Ref("SnilU"), Ref("SnilS"), Ref("Stail"), Ref("Sptr"), Ref("Snest"), Ref("Sbool"),
+                      Ref("EthTx"), Ref("RList"), Ref("RTree"), Ref("RA"), Ref("RArr"), Ref("Sa1"), Ref("Sif"), Ref("Senc")>>),
     EthTx |-> Struct(<<U(64), Ptr(Big), U(64), NilPtr(Arr(20)), Ptr(Big), Bytes, Ptr(Big), Ptr(Big), Ptr(Big)>>) ]
 TypeNames == DOMAIN TypeOf
 Deref(T) == IF T.t = "ref" THEN TypeOf[T.name] ELSE T
